@@ -248,7 +248,7 @@ static void case_ebpps(Rng& r) {
   describe(fam + " k=" + std::to_string(k) + " " + desc + " n=" + std::to_string(n));
   count(fam + "_" + desc);
   { const double c = sk->get_c(); if (c != std::floor(c)) count(fam + "_with_partial_item"); else if (!sk->is_empty()) count(fam + "_without_partial_item"); }
-  sig(mix64(mix64(sk->get_k(), sk->get_n()), mix64(static_cast<uint64_t>(sk->get_c() * 1024), std::hash<std::string>()(fam) + cls)));
+  sig(mix64(mix64(sk->get_k(), sk->get_n()), mix64(dbits(std::floor(sk->get_c() * 1024)), std::hash<std::string>()(fam) + cls)));
   Ops<S> o;
   o.fam = fam;
   o.to_bytes = [](const S& s, unsigned h) { return to_std_bytes(s.serialize(h, SD())); };
